@@ -367,8 +367,17 @@ func c12Run(c *Ctx, raw json.RawMessage) {
 	// (an earlier Go call with an argument in the same render: nothing of it may reach the call under test)
 	dz := strings.Join(zeros, ", ")
 	src := "<% vcount(0, 0, 0, 0, 0, 0) %><% id(0) %><% d1(" + dz + ") %><% d2(" + dz + ") %><% dm.Tag(0) %><% dm.Wrap(0) %><% dm.Tag(0) %><%= h(" + strings.Join(parts, ", ") + ")"
+	// the block's text: some text, nothing between two tags, nothing inside one tag (an empty block is still the call's block)
+	blkText := "B"
 	if cc.Blk {
-		src += " { %>B<% }"
+		switch (len(cc.Args) + len(cc.Sig.Res)) % 3 {
+		case 0:
+			src += " { %>B<% }"
+		case 1:
+			src, blkText = src+" { %><% }", ""
+		default:
+			src, blkText = src+" { }", ""
+		}
 	}
 	if cc.Sig.Res == "Snil" || cc.Sig.Res == "Serr" {
 		if cc.Blk {
@@ -487,7 +496,7 @@ func c12Run(c *Ctx, raw json.RawMessage) {
 		for _, b := range hcBlock {
 			want := "noblock"
 			if cc.Expect.Block {
-				want = `block:"B",<nil>`
+				want = fmt.Sprintf("block:%q,<nil>", blkText)
 			}
 			if b != want {
 				fail("block", fmt.Sprintf("helper context: %s, expected %s", b, want))
